@@ -1,1 +1,55 @@
-// hook body for rabinkarp (included into /repo under cfg(aho_corasick_verif))
+// Hook body included as `crate::packed::rabinkarp::verif`.
+use super::*;
+use alloc::{vec::Vec, sync::Arc};
+
+pub type Entry = (Hash, PatternID);
+
+pub const fn entry(h: usize, p: u32) -> Entry {
+    (h, PatternID::new_unchecked(p as usize))
+}
+
+/// (buckets as (hash, pid), hash_len, hash_2pow)
+pub(crate) fn to_raw(rk: &RabinKarp) -> (Vec<Vec<(usize, u32)>>, usize, usize) {
+    (
+        rk.buckets
+            .iter()
+            .map(|b| b.iter().map(|&(h, p)| (h, p.as_u32())).collect())
+            .collect(),
+        rk.hash_len,
+        rk.hash_2pow,
+    )
+}
+
+unsafe fn alias(b: &'static [Entry]) -> Vec<Entry> {
+    Vec::from_raw_parts(b.as_ptr() as *mut Entry, b.len(), b.len())
+}
+
+/// Rebuild around borrowed statics, loop free (64 buckets written out).
+pub(crate) fn from_parts(
+    patterns: Arc<Patterns>,
+    b: &'static [&'static [Entry]; 64],
+    hash_len: usize,
+    hash_2pow: usize,
+) -> RabinKarp {
+    let buckets: Vec<Vec<Entry>> = unsafe {
+        alloc::vec![
+            alias(b[0]), alias(b[1]), alias(b[2]), alias(b[3]), alias(b[4]),
+            alias(b[5]), alias(b[6]), alias(b[7]), alias(b[8]), alias(b[9]),
+            alias(b[10]), alias(b[11]), alias(b[12]), alias(b[13]),
+            alias(b[14]), alias(b[15]), alias(b[16]), alias(b[17]),
+            alias(b[18]), alias(b[19]), alias(b[20]), alias(b[21]),
+            alias(b[22]), alias(b[23]), alias(b[24]), alias(b[25]),
+            alias(b[26]), alias(b[27]), alias(b[28]), alias(b[29]),
+            alias(b[30]), alias(b[31]), alias(b[32]), alias(b[33]),
+            alias(b[34]), alias(b[35]), alias(b[36]), alias(b[37]),
+            alias(b[38]), alias(b[39]), alias(b[40]), alias(b[41]),
+            alias(b[42]), alias(b[43]), alias(b[44]), alias(b[45]),
+            alias(b[46]), alias(b[47]), alias(b[48]), alias(b[49]),
+            alias(b[50]), alias(b[51]), alias(b[52]), alias(b[53]),
+            alias(b[54]), alias(b[55]), alias(b[56]), alias(b[57]),
+            alias(b[58]), alias(b[59]), alias(b[60]), alias(b[61]),
+            alias(b[62]), alias(b[63]),
+        ]
+    };
+    RabinKarp { patterns, buckets, hash_len, hash_2pow }
+}
